@@ -65,3 +65,64 @@ def gen_snapshots():
 
 
 GENERATORS.append(("snapshots", gen_snapshots))
+
+
+# ---------------------------------------------------------------- device / sensor tables and fixed automation keys (C12)
+def inventory_tables():
+    from geckolib.const import GeckoConstants as K
+    from geckolib.automation.heater import GeckoWaterHeater
+    from geckolib.automation.watercare import GeckoWaterCare
+    from geckolib.automation.reminders import GeckoReminders
+    from geckolib.automation.keypad import GeckoKeypad
+    from geckolib.automation.sensors import GeckoSensorBase
+
+    class Acc:
+        tag = "t"
+        items = None
+
+        def watch(self, o):
+            pass
+
+    class Accs(dict):
+        def __contains__(self, k):
+            return True
+
+        def __getitem__(self, k):
+            return Acc()
+
+    class F:
+        unique_id = "u"
+        name = "n"
+
+        class _spa:
+            accessors = Accs()
+        spa = _spa
+    f = F()
+    f.facade = f
+    fixed = [GeckoWaterHeater(f).key, GeckoWaterCare(f).key, GeckoReminders(f).key, GeckoKeypad(f).key, K.KEY_ECON_ACTIVE]
+    devices = [(k, v[0], int(v[1]), v[2], v[3]) for k, v in K.DEVICES.items()]
+    sensors = [(s[0], s[1], GeckoSensorBase(f, s[0]).key) for s in K.SENSORS]
+    bsensors = [(s[0], s[1], GeckoSensorBase(f, s[0]).key) for s in K.BINARY_SENSORS]
+    classes = {"PUMP": K.DEVICE_CLASS_PUMP, "BLOWER": K.DEVICE_CLASS_BLOWER, "LIGHT": K.DEVICE_CLASS_LIGHT}
+    for d in devices:
+        if d[4] not in classes.values():
+            raise ValueError("device %s has class %s" % (d[0], d[4]))
+    return {"devices": devices, "sensors": sensors, "binary_sensors": bsensors, "fixed": fixed, "classes": classes}
+
+
+def gen_inventory():
+    t = inventory_tables()
+    inv = {v: k for k, v in t["classes"].items()}
+    txt = "(* GENERATED from /repo (geckolib/const.py + automation classes) by tools/gen_misc.py - do not edit *)\nFrom Coq Require Import ZArith List String.\nRequire Import GV.Model.Inventory.\nImport ListNotations.\nOpen Scope string_scope. Open Scope Z_scope.\n"
+    txt += "(* (device id, name, keypad code, state item, class) *)\n"
+    txt += "Definition devices_table : list (string * string * Z * string * dclass) := [\n" + ";\n".join(
+        "  (%s, %s, %d, %s, C%s)" % (vf.cstr(d[0]), vf.cstr(d[1]), d[2], vf.cstr(d[3]), inv[d[4]]) for d in t["devices"]) + "\n].\n"
+    txt += "(* (name, item key, automation key) *)\n"
+    txt += "Definition sensors_table : list (string * string * string) := [%s].\n" % "; ".join("(%s, %s, %s)" % tuple(vf.cstr(x) for x in s) for s in t["sensors"])
+    txt += "Definition binary_sensors_table : list (string * string * string) := [%s].\n" % "; ".join("(%s, %s, %s)" % tuple(vf.cstr(x) for x in s) for s in t["binary_sensors"])
+    txt += "(* automation keys of heater, watercare, reminders, keypad, eco mode *)\n"
+    txt += "Definition fixed_keys : list string := [%s].\n" % "; ".join(vf.cstr(x) for x in t["fixed"])
+    vf.write_if_changed(os.path.join(vf.GEN, "InventoryTables.v"), txt)
+
+
+GENERATORS.append(("inventory_tables", gen_inventory))
